@@ -48,13 +48,15 @@ def specStep (c : Cfg) (scn : String) (cd : CallDef) (vars : Vars Char) : Outcom
         else none
       ({ calls := [callText m msg (mdText md) c.tmo], samples := [sampleText tag code] }, true, ret)
 
-/-- one scenario shot: steps in order, the iterator advanced by every step with a preprocessor; a failing step ends
-the shot. Returns the outcome and the iterator position afterwards; `none` = outside the modelled fragment. -/
-def specSteps (c : Cfg) (scn : String) : List CallDef → Nat → ShotVars → Outcome → Option (Outcome × Nat)
-  | [], drawn, _, acc => some (acc, drawn)
-  | cd :: rest, drawn, sv, acc =>
+/-- one scenario shot: steps in order, the call's iterator advanced by every step with a preprocessor; a failing step
+ends the shot. Returns the outcome and the iterator positions afterwards; `none` = outside the modelled fragment. -/
+def specSteps (c : Cfg) (scn : String) : List CallDef → List (String × Nat) → ShotVars → Outcome → Option (Outcome × List (String × Nat))
+  | [], iters, _, acc => some (acc, iters)
+  | cd :: rest, iters, sv, acc =>
     if (cd.pre && c.users.isEmpty) || needsMissing cd sv then none else
-    let (u, drawn') := if cd.pre then (c.users.getD (drawn % c.users.length) "", drawn + 1) else ("", drawn)
+    let owner := iterOwner c cd
+    let drawn := (assocGet iters owner).getD 0
+    let (u, drawn') := if cd.pre then (c.users.getD (drawn % c.users.length) "", assocSet iters owner (drawn + 1)) else ("", iters)
     let vars : Vars Char := [(vU, u.toList), (vA, (sv.a.getD "").toList), (vI, (sv.i.getD "").toList), (vG, c.g.toList)]
     let (o, ok, ret) := specStep c scn cd vars
     let acc' : Outcome := { calls := acc.calls ++ o.calls, samples := acc.samples ++ o.samples }
@@ -74,9 +76,9 @@ def expectedSched (c : Cfg) : List Nat → Nat → List (String × Nat) → List
       match resolveReqs c s with
       | none => none
       | some cds =>
-        match specSteps c s.name cds ((assocGet iters s.name).getD 0) { a := none, i := none } { calls := [], samples := [] } with
+        match specSteps c s.name cds iters { a := none, i := none } { calls := [], samples := [] } with
         | none => none
-        | some (o, drawn) => expectedSched c rest (k + 1) (assocSet iters s.name drawn) ((gun, o) :: acc)
+        | some (o, iters') => expectedSched c rest (k + 1) iters' ((gun, o) :: acc)
 
 /-! ### comparison of an observation with the expectation -/
 
@@ -133,7 +135,7 @@ def judgeMultiset (expCalls expSamples : List String) (impl : String) : String :
       | none => "ok"
 
 def parseShot (s : String) : Option (Nat × List String × List String) :=
-  match s.splitOn ":" with
+  match s.splitOn "#" with
   | [g, cs, ss] => g.toNat?.map fun g => (g, splitNE cs "+", splitNE ss "+")
   | _ => none
 
